@@ -67,7 +67,7 @@ func loadAll(c *caseIn) (map[string]string, error) {
 	return sdls, nil
 }
 
-func runOne(c *caseIn, sdls map[string]string, perm []int, which string) (res map[string]interface{}) {
+func runOne(c *caseIn, sdls map[string]string, perm []int, which string, shared map[string]*ast.Schema) (res map[string]interface{}) {
 	res = map[string]interface{}{"ev": "Result", "perm": perm, "merger": which, "ok": false, "panic": false, "err": "", "valid": false,
 		"schema": mschema.Abs(&ast.Schema{Types: map[string]*ast.Definition{}}).Fill(), "routes": map[string]interface{}{}, "nodeTypes": []string{}, "urls": []string{}}
 	defer func() {
@@ -81,8 +81,16 @@ func runOne(c *caseIn, sdls map[string]string, perm []int, which string) (res ma
 	schemas := map[string]*ast.Schema{}
 	for _, i := range perm {
 		s := c.Svcs[i-1]
-		// a fresh parse per run: the merger must not depend on state left in the inputs
-		sch, _ := gqlparser.LoadSchema(&ast.Source{Name: s.URL, Input: sdls[s.URL]})
+		// a fresh parse per run - except in the mode "extend-again", where every order of the list is merged from the
+		// SAME parsed schemas: what one merge leaves behind in its inputs must not change the next one's outcome
+		// (a gateway that re-merges after a change of its service list, a caller that merges a subset)
+		sch := shared[s.URL]
+		if which != "extend-again" || sch == nil {
+			sch, _ = gqlparser.LoadSchema(&ast.Source{Name: s.URL, Input: sdls[s.URL]})
+			if which == "extend-again" {
+				shared[s.URL] = sch
+			}
+		}
 		inputs = append(inputs, &merger.MergeInput{Schema: sch, URL: s.URL})
 		urls = append(urls, s.URL)
 		schemas[s.URL] = sch
@@ -90,7 +98,7 @@ func runOne(c *caseIn, sdls map[string]string, perm []int, which string) (res ma
 	var mr *merger.MergeResult
 	var err error
 	switch which {
-	case "extend":
+	case "extend", "extend-again":
 		var m merger.ExtendMergerFunc
 		mr, err = m.Merge(inputs)
 	case "sanitize":
@@ -151,9 +159,18 @@ func runCase(enc *json.Encoder, c *caseIn, mergers []string) {
 	if ps == nil {
 		ps = perms(len(c.Svcs))
 	}
+	shared := map[string]*ast.Schema{}
 	for _, p := range ps {
 		for _, m := range mergers {
-			enc.Encode(runOne(c, sdls, p, m))
+			enc.Encode(runOne(c, sdls, p, m, shared))
+		}
+	}
+	// once more in the first order, after every other order has been through the same objects
+	if len(ps) > 0 {
+		for _, m := range mergers {
+			if m == "extend-again" {
+				enc.Encode(runOne(c, sdls, ps[0], m, shared))
+			}
 		}
 	}
 }
@@ -179,7 +196,7 @@ func cmdRun(args []string) {
 		if err := json.Unmarshal(sc.Bytes(), &c); err != nil {
 			panic(err)
 		}
-		runCase(enc, &c, []string{"extend", "sanitize", "gateway"})
+		runCase(enc, &c, []string{"extend", "sanitize", "gateway", "extend-again"})
 	}
 }
 
@@ -552,7 +569,7 @@ func cmdGen(args []string) {
 				}
 			}
 		}
-		runCase(enc, c, []string{"extend", "sanitize", "gateway"})
+		runCase(enc, c, []string{"extend", "sanitize", "gateway", "extend-again"})
 	}
 }
 
